@@ -115,7 +115,10 @@ def equals_default(spec, f, value):
     """python equality with the field default (docs: ignore_default_attributes skips optional attributes whose
     value equals the default)."""
     if "default_tokens" in f:
-        return [repr(dec_enum(spec, x)) for x in seq_items(value)] == [repr(dec_enum(spec, x)) for x in f["default_tokens"]]
+        try:        # python equality item by item (Decimal('0.000') == Decimal('0'))
+            return [dec_enum(spec, x) for x in seq_items(value)] == [dec_enum(spec, x) for x in f["default_tokens"]]
+        except Exception:
+            return False
     if "default" in f:
         a, b = dec_enum(spec, value), dec_enum(spec, f["default"])
         try:
